@@ -17,7 +17,7 @@ META = {
 
 
 def run(ctx):
-    return G.run_property(ctx, "C08", n_quick=400, n_thorough=6000, seg_p=1.0)
+    return G.run_property(ctx, "C08", n_quick=400, n_thorough=6000, seg_p=1.0, toggles=0.12)
 
 
 def replay(ctx, payload):
